@@ -5,21 +5,13 @@ From Verif Require Import Py PyExt G_slicing PySlice Slicing SlicingP.
 Import ListNotations.
 Open Scope Z_scope.
 
-(* Full statement (for every slice, the code's normalisation selects what Python selects):
-     forall a b c dim, 0 <= dim -> c <> Some 0 ->
-       selects (normalize_slice (VSlice (oz a) (oz b) (oz c)) dim) = slice_selects a b c dim.
-   It is FALSE of the code as it stands (finding D1), see slice_norm_refuted; the proved part is
-   slice_norm_partial, which excludes exactly a user-given stop in [step, -1] with step < 0. *)
-Theorem slice_norm_partial :
+(* For every slice (any start/stop/step incl. None, negative, out of range; step <> 0) and
+   every extent, the normalisation the code performs (regenerated from _slicing.py:
+   replace_none, posify_index, clip_slice) selects exactly the positions CPython's slice
+   semantics select, in the same order.  (Before fix f6512bb this was false: finding D1.) *)
+Theorem slice_norm_correct :
   forall (a b c : option Z) (dim : Z),
-    0 <= dim -> c <> Some 0 -> d1_clause b c = true ->
+    0 <= dim -> c <> Some 0 ->
     selects (normalize_slice (VSlice (oz a) (oz b) (oz c)) dim) = slice_selects a b c dim.
-Proof. exact slice_norm_partial_proof. Qed.
-Print Assumptions slice_norm_partial.
-
-Theorem slice_norm_refuted :
-  exists (a b c : option Z) (dim : Z),
-    0 <= dim /\ c <> Some 0 /\
-    selects (normalize_slice (VSlice (oz a) (oz b) (oz c)) dim) <> slice_selects a b c dim.
-Proof. exact slice_norm_refuted_proof. Qed.
-Print Assumptions slice_norm_refuted.
+Proof. exact slice_norm_correct_proof. Qed.
+Print Assumptions slice_norm_correct.
